@@ -224,6 +224,27 @@ func levelsGen(r *rand.Rand, n int, small bool) []Case {
 			ops = append(ops, fmt.Sprintf("get %s %d", hxs("absent"), 3), fmt.Sprintf("get %s %d", hxs(users[0]+"\x00"), maxTs))
 		}
 		steps := 3 + r.Intn(8)
+		if c%8 == 5 {
+			// many tables in one level, recovered from the directory (names sort "0-10" before "0-2"),
+			// then more flushes: table names must stay unique whatever order the handles are in
+			ops[0] = fmt.Sprintf("lm %d %d %d %d", 30, 1+r.Intn(3), bsz, low)
+			nt := 11 + r.Intn(5)
+			ts := 1
+			for i := 0; i < nt; i++ {
+				ops = append(ops, "flush "+sortedEntries([][2]any{{users[i%len(users)], ts}}))
+				if (i+1)%len(users) == 0 {
+					ts++
+				}
+			}
+			ops = append(ops, fmt.Sprintf("recover %d", low))
+			for i := 0; i < 3; i++ {
+				ops = append(ops, "flush "+sortedEntries([][2]any{{users[i%len(users)], ts + 1 + i}}))
+			}
+			maxTs = ts + 4
+			queries()
+			tags["many-tables-recover"] = true
+			steps = 1 + r.Intn(3)
+		}
 		for s := 0; s < steps; s++ {
 			switch x := r.Intn(10); {
 			case x < 6:
